@@ -40,6 +40,47 @@ def orbit_fits(ctx, rule="C19.exact"):
            "event_cardinality(4, 2, 2) is 2 (the only such sample is [2, 2])", role="orbit-fits", line=f.node.lineno)
 
 
+def padding_guard(ctx, rule="C19.exact"):
+    from .common_guard import path_facts, rel
+    ctx.explain(f"{rule}: (fit guard agrees with the padding) where a function of apps/similarity.py pads a pattern with "
+                "`[0] * (M - L)` zeros, a guard that answers 0 (or raises) for patterns that do not fit compares the SAME two quantities "
+                "(`L > M`): comparing another quantity with M (the photon number instead of the orbit length, say) rejects patterns that fit "
+                "and lets through patterns that do not.")
+    n = 0
+    for f in ctx.tree.module(SIM).functions.values():
+        pads = []
+        for b in walk_no_nested(f.node):
+            if isinstance(b, ast.BinOp) and isinstance(b.op, ast.Mult):
+                for lst, cnt in ((b.left, b.right), (b.right, b.left)):
+                    if isinstance(lst, ast.List) and len(lst.elts) == 1 and isinstance(lst.elts[0], ast.Constant) and lst.elts[0].value == 0:
+                        c = expand_locals(f.node, cnt)
+                        if isinstance(c, ast.BinOp) and isinstance(c.op, ast.Sub):
+                            pads.append((ast.unparse(c.left).replace(" ", ""), ast.unparse(c.right).replace(" ", "")))
+        if not pads:
+            continue
+        cfg = cfg_of(f.node)
+        k = 0
+        for nd in cfg.nodes:
+            if nd.kind == "stmt" and (isinstance(nd.ast, ast.Raise) or isinstance(nd.ast, ast.Return) and
+                                      isinstance(nd.ast.value, ast.Constant) and nd.ast.value.value in (0, 0.0)):
+                for a, v in path_facts(cfg, nd.id):
+                    r_ = rel(a, v)
+                    if r_ is None or r_[0] not in (">", ">="):
+                        continue
+                    big = ast.unparse(expand_locals(f.node, r_[1], keep=tuple(f.params))).replace(" ", "")
+                    small = ast.unparse(expand_locals(f.node, r_[2], keep=tuple(f.params))).replace(" ", "")
+                    for M, L in pads:
+                        if small == M:
+                            k += 1
+                            n += 1
+                            ok = big == L
+                            ctx.ob(rule, f.site, ok, "" if ok else f"`{ast.unparse(a)[:50]}` answers for patterns that do not fit, but the "
+                                   f"padding is `[0] * ({M} - {L})`: the guard must compare `{L}` with `{M}`, not `{big[:30]}`",
+                                   role=f"fit-guard:{k}", line=nd.ast.lineno)
+    ctx.require(n >= 1, "no fit guard next to a zero padding found in apps/similarity.py (orbit_cardinality has one)")
+    return n
+
+
 def exact(ctx, rule="C19.exact"):
     ctx.explain(f"{rule}: the value returned by orbit_cardinality / event_cardinality is built from integer-exact "
                 "operations only (no true division, no factorial(..., exact=False), no floating-point product).")
@@ -230,6 +271,7 @@ def order(ctx, rule="C19.set-order"):
 
 def rules(ctx):
     orbit_fits(ctx)
+    padding_guard(ctx)
     exact(ctx)
     index_space(ctx)
     clique_taint(ctx)
